@@ -21,6 +21,8 @@ pub enum Case14 {
     Other { ast: AstCase },
     /// an invalid pattern (no '[' in it) with whitespace inserted must still be rejected under x
     Invalid { which: u16, gaps: Vec<(u16, u8, u8)> },
+    /// whitespace inside a class expression is kept under x: a pattern that is invalid because of it stays invalid
+    InvalidInside { which: u16, ws: u8 },
 }
 
 const WS: [char; 4] = ['\t', '\n', '\r', ' '];
@@ -108,8 +110,33 @@ fn invalid_pool() -> Vec<String> {
     v.iter().map(|s| s.to_string()).collect()
 }
 
+const INVALID_INSIDE: &[&str] = &["[a-z-[aeiou]@]", "[a-[b]@]+", "x[\\p{L}-[\\p{Lu}]@]y", "([a-c-[b]@])\\1", "[a-[b]@c]", "[^a-[b-[c]@]]", "[a-[b]]@]"];
+
 fn check(case: &Case14, ctx: &mut Ctx) -> Verdict {
     match case {
+        Case14::InvalidInside { which, ws } => {
+            let t = INVALID_INSIDE[((*which as usize) * INVALID_INSIDE.len()) >> 16];
+            let p = t.replace('@', &WS[*ws as usize % 4].to_string());
+            ctx.obs.label("part:invalid-inside-class");
+            for flags in ["x", ""] {
+                let mut job = Job::new(Dialect::XPath, &p, flags);
+                job.apis = 0;
+                let out = match ctx.w.run(&job) {
+                    JobResult::Done(o) => o,
+                    _ => return Verdict::Skip("hang"),
+                };
+                ctx.obs.eval(1);
+                match &out.compile {
+                    Res::Err(ErrKind::Syntax) => {}
+                    Res::Panic(_) => return Verdict::Skip("panic"),
+                    other => {
+                        return Verdict::Fail(Failure { sub: "invalid-inside-class".into(), expected: "Err(Syntax): whitespace inside a class expression is not removed, and nothing may follow a subtraction".into(), actual: format!("{:?}", other.err().map(|e| format!("{e:?}")).unwrap_or("accepted".into())), detail: format!("pattern={p:?} flags={flags:?}") })
+                    }
+                }
+            }
+            ctx.obs.nontrivial(&p);
+            Verdict::Pass
+        }
         Case14::Outside { ast, gaps } => {
             let m = ast.materialize(Dialect::XPath, &[' ', '\t']);
             let (pws, positions) = insert_ws(&m.pattern, gaps);
@@ -276,6 +303,7 @@ impl Prop for C14 {
             Part { name: "whitespace-inside-classes".into(), strategy: s2, cases: tier.pick(60_000, 1_000_000) },
             Part { name: "non-whitespace-characters".into(), strategy: s3, cases: tier.pick(40_000, 500_000) },
             Part { name: "invalid-with-whitespace".into(), strategy: s4, cases: tier.pick(40_000, 500_000) },
+            Part { name: "invalid-inside-class".into(), strategy: (any::<u16>(), 0u8..4).prop_map(|(which, ws)| Case14::InvalidInside { which, ws }).boxed(), cases: tier.pick(2_000, 10_000) },
         ]
     }
     fn check(&self, case: &Case14, ctx: &mut Ctx) -> Verdict {
@@ -294,6 +322,7 @@ impl Prop for C14 {
                 let p = &pool[((*which as usize) * pool.len()) >> 16];
                 json!({"invalid": p, "with_whitespace": insert_ws(p, gaps).0})
             }
+            Case14::InvalidInside { which, ws } => json!({"template": INVALID_INSIDE[((*which as usize) * INVALID_INSIDE.len()) >> 16], "ws": ws}),
         }
     }
     fn rule(&self) -> String {
